@@ -249,7 +249,18 @@ def gen(rng, tier):
                     args = [x]
                 else:
                     args = [x, rng.choice([1, 2, 3])] if rng.random() < 0.7 else [rng.choice([1, 2]), x]
-                hist.append({"ev": "ufunc_out", "var": x, "ufunc": uf, "args": args})
+                uev = {"ev": "ufunc_out", "var": x, "ufunc": uf, "args": args}
+                if rng.random() < 0.4:
+                    # masked ufunc: where the mask is False the OLD contents of x are an input of the result
+                    size = int(np.prod(X.shape))
+                    uev["where"] = np.array([rng.random() < 0.5 for _ in range(size)]).reshape(X.shape).tolist()
+                hist.append(uev)
+                if "where" in uev and rng.random() < 0.6:
+                    # ... then x changes, and the SAME masked ufunc (same inputs, same mask) is applied again
+                    hist.append(dict({"ev": "compute", "var": x}, **H.rand_sched(rng)))
+                    n0 = int(X.shape[0])
+                    hist.append({"ev": "setitem", "var": x, "key": [rng.randrange(n0)], "value": rng.choice([100, -50])})
+                    hist.append(dict(uev))
         # after a mutation: faults, new derivations from the mutated x, computes
         if rng.random() < 0.3:
             hist.append(rng.choice([{"ev": "gc"}, {"ev": "evict", "what": "lower"}, {"ev": "evict", "what": "singleton"}]))
@@ -404,7 +415,10 @@ def execute(case, stats, log):
                     f = getattr(np, ev["ufunc"])
                     ins = [pre if a == t else a for a in ev["args"]]
                     exp = np.array(pre, copy=True)
-                    f(*ins, out=exp)
+                    if ev.get("where") is not None:
+                        f(*ins, out=exp, where=np.array(ev["where"], dtype=bool))
+                    else:
+                        f(*ins, out=exp)
                 else:
                     exp = pre
             except Exception as e:  # noqa: BLE001
@@ -442,6 +456,12 @@ def execute(case, stats, log):
                                         f"event {i}: after compute_chunk_sizes block {kkey[1:]} has shape {np.shape(blk)} "
                                         f"but chunks advertise {adv}", step=i)
             else:
+                try:
+                    _ = X.shape, X.dtype
+                except Exception as e:  # noqa: BLE001
+                    raise Violation(ID, "inplace-changed-metadata",
+                                    f"event {i}: after {kind} the shape/dtype of {t} cannot be read any more: "
+                                    f"{type(e).__name__}: {str(e)[:200]}", step=i)
                 if tuple(X.shape) != tuple(pre_meta[0]) or X.dtype != pre_meta[1]:
                     raise Violation(ID, "inplace-changed-metadata",
                                     f"event {i}: {kind} changed shape/dtype {pre_meta[0]}/{pre_meta[1]} -> {X.shape}/{X.dtype}", step=i)
